@@ -207,6 +207,52 @@ theorem gen_from_eq {T : Type} (f : T → Bit) (b : T) :
   unfold BitSeq.From_T.from_
   cases hb : f b <;> gsimp [hb, gen_new_eq]
 
+/-! ### parsing and printing (`&str` / `String` are the lists of their chars) -/
+
+/-- `impl_bit_from_int!(u64)`: `0 ↦ Bit0`, `1 ↦ Bit1`, anything else panics (used by `BitSeq::iter`) -/
+theorem gen_Bit_from_u64_eq (v : Nat) :
+    Bit.From_u64.from_ v = if v = 0 then ok .Bit0 else if v = 1 then ok .Bit1 else .panic := by
+  unfold Bit.From_u64.from_
+  simp only [decide_eq_true_eq]
+
+/-- `impl_bit_from_int!(usize)` (the same macro body at 64-bit `usize`) -/
+theorem gen_Bit_from_usize_eq (v : Nat) : Bit.From_usize.from_ v = Bit.From_u64.from_ v := rfl
+
+/-- the derived `Display` of `Bit` (`#[display("0")]`, `#[display("1")]`) -/
+theorem gen_Bit_display_eq (b : Bit) : Bit.Display.fmt b = [if toBool b then '1' else '0'] := by cases b <;> rfl
+
+/-- the closure of `from_str`: `'0' ↦ Ok(Bit0)`, `'1' ↦ Ok(Bit1)`, every other char `Err` -/
+theorem gen_from_str_closure_eq (c : Char) :
+    (BitSeq.FromStr.from_str_closure1 c).map toBool
+      = if c = '0' then some false else if c = '1' then some true else none := by
+  unfold BitSeq.FromStr.from_str_closure1
+  by_cases h0 : c = '0'
+  · simp [h0, toBool]
+  · by_cases h1 : c = '1' <;> simp [h0, h1, toBool]
+
+/-- `BitSeq::iter`: never panics; its items are exactly the model's bits (`len` times `(val & 1, val >>= 1)`) -/
+theorem gen_bitseq_iter_eq (b : BitSeqS) :
+    mapR (List.map toBool) (BitSeq.iter b) = ok (C17.iter (toBS b)) := by
+  unfold BitSeq.iter C17.iter
+  simp only [Nat.sub_zero, iter_items_eq, mapR_ok, toBS, List.map_map]
+  congr 1
+  rw [List.map_congr_left (g := id) (fun x _ => by cases x <;> rfl)]
+  simp
+
+/-- `impl FromStr for BitSeq`, for EVERY string: the same value, the same `Err` (an invalid character, reported after
+`from_iter` has consumed the valid prefix) and the same panic (more than 64 valid characters before the first invalid
+one — also when the string then contains an invalid character) -/
+theorem gen_bitseq_from_str_eq (s : List Char) :
+    mapR toBS (BitSeq.FromStr.from_str s) = C17.fromStr s := by
+  rw [fromStr_unfold, ← from_str_loop_eq s 0 0 (by decide)]
+  rfl
+
+/-- `impl Display for BitSeq`: never fails, and the text written is the hand model's `toStr` -/
+theorem gen_bitseq_display_eq (b : BitSeqS) :
+    BitSeq.Display.fmt b = ok (C17.toStr (toBS b)) := by
+  unfold BitSeq.Display.fmt BitSeq.iter C17.toStr C17.iter
+  simp only [Nat.sub_zero, iter_items_eq, Res.bind_ok, display_fold_eq, List.nil_append, toBS]
+
 /-! ### the hypotheses are satisfiable, the statements are not vacuous -/
 
 example : InRange ⟨0b10110, 5⟩ := by unfold InRange; decide
@@ -218,5 +264,11 @@ example : mapR toBS (BitSeq.FromIterator_T.from_iter Bit.From_bool.from_ [true, 
     = ok ⟨0b01101, 5⟩ := by
   rw [gen_from_iter_eq _ _ (by decide)]; decide
 example : mapR toBS (BitSeq.push ⟨0, 64⟩ .Bit1) = .panic := by rw [gen_push_eq]; decide
+example : mapR toBS (BitSeq.FromStr.from_str "01101".toList) = ok ⟨0b10110, 5⟩ := by
+  rw [gen_bitseq_from_str_eq]; decide
+example : mapR toBS (BitSeq.FromStr.from_str "+101".toList) = .err := by rw [gen_bitseq_from_str_eq]; decide
+example : mapR toBS (BitSeq.FromStr.from_str (List.replicate 65 '0' ++ ['x'])) = .panic := by
+  rw [gen_bitseq_from_str_eq]; decide
+example : BitSeq.Display.fmt ⟨0b10110, 5⟩ = ok "01101".toList := by rw [gen_bitseq_display_eq]; decide
 
 end Yuiv.C17Gen
